@@ -11,9 +11,9 @@
    checked by correspondence (pretty-printing generated ASTs under all spellings/layouts and comparing the parser's
    ASTs and the verdicts; tools/gv/props/c14.py). *)
 From GV.Model Require Import Ast Spec.
-From GV.Model Require Import Lex ValueParse QueryParse OpParse ClauseParse CnfParse FilterParse ClauseFParse.
+From GV.Model Require Import Lex ValueParse QueryParse OpParse ClauseParse CnfParse FilterParse ClauseFParse CnfFParse.
 From GV.Proofs Require Import LexProps ValueParseProps ValueSpellProps ValueSpellExample.
-From GV.Proofs Require Import QueryParseProps QuerySpellProps QuerySpellExample ThisProps OpParseProps ClauseParseProps ClauseSpellProps ClauseSpellExample CnfParseProps OpSoundProps ClauseFuelProps CnfSpellProps CnfSpellExample FilterParseProps ClauseFProps.
+From GV.Proofs Require Import QueryParseProps QuerySpellProps QuerySpellExample ThisProps OpParseProps ClauseParseProps ClauseSpellProps ClauseSpellExample CnfParseProps OpSoundProps ClauseFuelProps CnfSpellProps CnfSpellExample FilterParseProps ClauseFProps CnfFProps.
 
 Theorem C14_keyword_tables_are_the_documented_ones :
   set_eqb kw_in_keyword ["in"; "IN"] = true /\ set_eqb kw_keys ["keys"; "KEYS"] = true /\
@@ -315,3 +315,9 @@ Print Assumptions C14_filter_parser_answers.
 Theorem C14_clause_parser_with_filters_extends : forall rv s x, clause_top rv s = x -> x <> PUnk -> clause_f_top rv s = pmap embed_clause x.
 Proof. exact clause_f_top_extends. Qed.
 Print Assumptions C14_clause_parser_with_filters_extends.
+
+(* the conditions parser over clauses with filtered queries answers what the filter-free conditions parser answers wherever that answers *)
+Theorem C14_conditions_parser_with_filters_extends : forall rv s x, single_clauses_top rv s = x -> x <> PUnk -> x <> POof ->
+  single_clauses_f_top rv s = pmap (map (map embed_when)) x.
+Proof. exact conditions_f_extend. Qed.
+Print Assumptions C14_conditions_parser_with_filters_extends.
